@@ -4,6 +4,7 @@ from __future__ import annotations
 import builtins
 import contextlib
 import copy
+import threading
 
 import numpy as np
 import z3
@@ -47,8 +48,23 @@ class SaveRecorder:
         self.saves.append(snap)
 
 
+class DaemonThread(threading.Thread):
+    """Harness hygiene: agent threads never keep the checker process alive."""
+
+    def __init__(self, *a, **k):
+        k.setdefault("daemon", True)
+        super().__init__(*a, **k)
+
+
+class _ThreadingProxy:
+    Thread = DaemonThread
+
+    def __getattr__(self, name):
+        return getattr(threading, name)
+
+
 @contextlib.contextmanager
-def world(*, argsort_identity=False, recorder=None, extra_modules=(), extra_names=None):
+def world(*, argsort_identity=False, recorder=None, extra_modules=(), extra_names=None, rng=True):
     """Rebind the module globals the Calibrator uses (the source files are not edited)."""
     over = {}
     if argsort_identity:
@@ -57,8 +73,10 @@ def world(*, argsort_identity=False, recorder=None, extra_modules=(), extra_name
     names = dict(np=npx, Parallel=SymParallel, delayed=sym_delayed, print=_noprint)
     if recorder is not None:
         names["save_calibrator_state"] = recorder
-    with patched(cal, **names), patched(seedable, default_rng=sym_default_rng), patched(sbase, np=NPX, print=_noprint), \
-            patched(ss, np=NPX, print=_noprint), patched(rls, np=NPX, float=sym_float), patched(*extra_modules, **(extra_names or {})):
+    rng_patch = patched(seedable, default_rng=sym_default_rng) if rng else contextlib.nullcontext()
+    with patched(cal, **names), rng_patch, patched(sbase, np=NPX, print=_noprint), \
+            patched(ss, np=NPX, print=_noprint), patched(rls, np=NPX, float=sym_float, threading=_ThreadingProxy()), \
+            patched(*extra_modules, **(extra_names or {})):
         yield
 
 
